@@ -132,7 +132,7 @@ var clauseKeywords = map[string]bool{"requires": true, "ensures": true, "modifie
 	"var": true, "assume": true, "show": true, "step": true}
 
 var resultDotRe = regexp.MustCompile(`\bresult\.(\d+)\b`)
-var labelRe = regexp.MustCompile(`^\[([A-Za-z0-9_\-\.]+)\]\s*`)
+var labelRe = regexp.MustCompile(`^\[([A-Za-z0-9_\-\.:]+)\]\s*`)
 
 func preprocessExpr(s string) string {
 	s = resultDotRe.ReplaceAllString(s, "result$1")
